@@ -828,7 +828,8 @@ def newslot_exec(run, fx, maxb=4):
             silf = O.Rec({PF + 'm_aUser': nuser})
             seg = O.Rec({PG + 'm_freeSlots': O.Ptr(None), PG + 'm_numGlyphs': 1, PG + 'm_numCharinfo': 1, PG + 'm_silf': O.Ptr(silf), PG + 'm_bufSize': bsz,
                          PG + 'm_slots': O.Vec(), PG + 'm_userAttrs': O.Vec(), PG + 'm_face': O.Ptr(O.Rec())})
-            nat = {'graphite2::Silf::numUser': lambda I, f, e, obj, a: nuser, 'free': lambda I, f, e, obj, a: None}
+            nat = {'graphite2::Silf::numUser': lambda I, f, e, obj, a: nuser, 'free': lambda I, f, e, obj, a: None,
+                   'graphite2::Face::logger': lambda I, f, e, obj, a: O.Ptr(None)}        # tracing builds ask for the logger: none is active
             for k_ in [k for k in fx.raw['fn_by_q'] if k.startswith('graphite2::grzeroalloc')]:
                 nat[k_] = alloc
             it = O.Interp(fx, natives=nat)
